@@ -1038,3 +1038,18 @@ VARIANTS += [
  dict(name='first-only-nested-eq1-gate-too-wide', expect='flagged(parser/)',
       edits=[(P, _DOC, _PERATTR2_FN + _DOC), (P, _RDNLOOP, _sub(_sub(_FO_NESTED, 'if len(attrs) > 0 {', 'if len(attrs) == 1 {'), 'if len(attrs) > 1 {', 'if len(attrs) > 2 {'))]),
 ]
+
+# the failure of the identity check is recorded (recorded.go; second guard-mutant run)
+V_ = 'verifier/verifier.go'
+REC_OLD = '\t\terr = verifyX509TrustedIdentities(policyName, trustedIdentities, outcome.EnvelopeContent.SignerInfo.CertificateChain)\n\t\tif err != nil {\n\t\t\tauthenticityResult.Error = err\n\t\t\tlogVerificationResult(logger, authenticityResult)\n\t\t}\n'
+def rec(cond, body='\t\t\tauthenticityResult.Error = err\n\t\t\tlogVerificationResult(logger, authenticityResult)\n'):
+    return '\t\terr = verifyX509TrustedIdentities(policyName, trustedIdentities, outcome.EnvelopeContent.SignerInfo.CertificateChain)\n\t\tif ' + cond + ' {\n' + body + '\t\t}\n'
+VARIANTS += [
+ dict(name='gm-identity-failure-recorded-false-conjunct', file=V_, expect='flagged(verifier/failure-recorded)', find=REC_OLD, replace=rec('false && (err != nil)')),
+ dict(name='gm-identity-failure-recorded-only-for-several-identities', file=V_, expect='flagged(verifier/failure-recorded)', find=REC_OLD, replace=rec('len(trustedIdentities) > 1 && err != nil')),
+ dict(name='gm-identity-failure-recorded-only-when-authenticity-failed-too', file=V_, expect='flagged(verifier/failure-recorded)', find=REC_OLD, replace=rec('authenticityResult.Error != nil && err != nil')),
+ dict(name='gm-identity-failure-logged-not-recorded', file=V_, expect='flagged(verifier/failure-recorded)', find=REC_OLD, replace=rec('err != nil', body='\t\t\tlogger.Warnf("trusted identity verification failed: %v", err)\n')),
+ dict(name='benign-gm-identity-failure-operands-swapped', file=V_, expect='silent', find=REC_OLD, replace=rec('nil != err')),
+ dict(name='benign-gm-identity-failure-scoped-error', file=V_, expect='silent', find=REC_OLD,
+      replace='\t\tif idErr := verifyX509TrustedIdentities(policyName, trustedIdentities, outcome.EnvelopeContent.SignerInfo.CertificateChain); idErr != nil {\n\t\t\tauthenticityResult.Error = idErr\n\t\t\tlogVerificationResult(logger, authenticityResult)\n\t\t}\n'),
+]
